@@ -33,7 +33,7 @@ theorem delMany_only (ks : List Str) : ∀ (deleted : List Str) (cont : List Str
 /-- a Location-like field that is absent, does not resolve, or names ANOTHER origin -/
 def NotSameOrigin (cfg : Cfg) (req : Req) (respH : Header) (hdr : Str) : Prop :=
   (Header.get respH hdr).isEmpty = true ∨ cfg.loc hdr = none ∨
-  ∃ g, cfg.loc hdr = some g ∧ sameOrigin req.scheme req.host g.scheme g.host = false
+  ∃ g, cfg.loc hdr = some g ∧ sameOrigin req.scheme req.host (resolveLoc req g).scheme (resolveLoc req g).host = false
 
 theorem invalidateLocation_cross (cfg : Cfg) (req : Req) (respH : Header) (hdr : Str) (deleted : List Str)
     (cont : List Str → Prog) (tr : List Step) (r : Result) (hn : NotSameOrigin cfg req respH hdr)
@@ -76,11 +76,11 @@ theorem invalidateCache_only_target (cfg : Cfg) (req : Req) (respH : Header) (re
 theorem invalidateLocation_same (cfg : Cfg) (req : Req) (respH : Header) (hdr : Str) (deleted : List Str)
     (cont : List Str → Prog) (tr : List Step) (r : Result) (g : LocGlue)
     (hne : (Header.get respH hdr).isEmpty = false) (hg : cfg.loc hdr = some g)
-    (hs : sameOrigin req.scheme req.host g.scheme g.host = true)
+    (hs : sameOrigin req.scheme req.host (resolveLoc req g).scheme (resolveLoc req g).host = true)
     (h : Run (invalidateLocation cfg req respH hdr deleted cont) tr r) :
-    ∃ a tr', tr = Step.getRefs g.key a :: tr' ∧
+    ∃ a tr', tr = Step.getRefs (resolveLoc req g).key a :: tr' ∧
       ∃ tr1 tr2 d, tr' = tr1 ++ tr2 ∧ Run (cont d) tr2 r ∧
-        g.key ∈ d ∧ (∀ ref ∈ a.getD [], ref.id ∈ d) ∧
+        (resolveLoc req g).key ∈ d ∧ (∀ ref ∈ a.getD [], ref.id ∈ d) ∧
         (∀ x ∈ d, x ∈ deleted ∨ Step.delete x ∈ tr1) := by
   unfold invalidateLocation at h
   simp only [hne, Bool.false_eq_true, ↓reduceIte, hg, hs] at h
